@@ -25,3 +25,18 @@ Definition gc_delete_step (objs : tmap (option obj)) (freed : list (N * obj)) (i
 
 Definition gc_delete_freed (g : gc) : list (N * obj) :=
   fold_left (gc_delete_step (g_obj g)) (nrange (g_size g)) [].
+
+(* ---- the loop bounds as a parameter ----------------------------------------------------------
+   for (i = lo; i < collector->mem_size - cut; i++) ...      the tree: lo = 0, cut = 0.
+   checks/c16.py reads lo and cut from back/gc.c (gc_delete) and compares them with the hypothesis of
+   gc_delete_bounds_complete; the heap-size sweep looks for the input when they differ. *)
+Definition nrange_from (lo hi : N) : list N :=
+  map (fun k => lo + N.of_nat k) (seq 0 (N.to_nat (hi - lo))).
+
+Definition gc_delete_freed_bounds (lo cut : N) (g : gc) : list (N * obj) :=
+  fold_left (gc_delete_step (g_obj g)) (nrange_from lo (g_size g - cut)) [].
+
+(* a heap of `size` cells whose last cell holds an object, every other cell empty: what a run that filled
+   the heap exactly to the brim leaves in cell size-1 *)
+Definition brim_heap (size : N) : gc :=
+  with_obj (gc_new size) (tset (tm_init None) (size - 1) (Some (OScalar 0 [7]))).
